@@ -279,7 +279,7 @@ func (c *Ctx) runGuardDominance(prefix string) {
 							lo, hi = true, true
 						}
 						be, ok := f.cond.(*ssa.BinOp)
-						if !ok || be.Op != token.EQL || !f.taken {
+						if !ok || !((be.Op == token.EQL && f.taken) || (be.Op == token.NEQ && !f.taken)) {
 							continue
 						}
 						for _, side := range []ssa.Value{be.X, be.Y} {
